@@ -10,6 +10,7 @@ func H_C06_Data() {
 	vCheck(len(enc) == 2+n, "Data/size")
 	in := append(append([]byte{}, enc...), vBytes("suffix", vParam("sfx"))...)
 	d := NewData()
+	d.Add(vBytes("prev", vParam("prev"))) // a reused receiver that already holds an earlier block
 	k, err := d.Unmarshal(in)
 	vCheck(err == nil, "Data/unmarshal-ok")
 	vCheck(k == len(enc), "Data/consumed")
